@@ -6,3 +6,4 @@ pub use util::*;
 pub mod scopedump;
 pub mod walk;
 pub mod gen_walker;
+pub mod gen_pstr_consts;
